@@ -169,6 +169,7 @@ type node struct {
 	large   bool
 	cont    bool
 	body    []byte // explicit leaf payload (C03: trun / senc leaves)
+	prefix  []byte // bytes between the header and the children (C03: stsd, visual sample entry)
 }
 
 var contNames = []string{"moov", "moof", "traf", "mfra", "udta", "dinf"}
@@ -193,6 +194,7 @@ func encodeNode(n *node, base int, sizeOffs *[]int) []byte {
 		hl = 16
 	}
 	if n.cont {
+		body = append(body, n.prefix...)
 		for _, k := range n.kids {
 			body = append(body, encodeNode(k, base+hl+len(body), sizeOffs)...)
 		}
